@@ -222,6 +222,19 @@ CHECKS['C13'] = (
     'unjudged. One open known finding (modes of one baud rate with different equalisation offsets).',
     'DESIGN.md 3/C13')
 
+CHECKS['C16'] = (
+    'exhaustive enumeration of ordered request batches (and two-batch histories on one network object) from a request menu '
+    'through the real planning(), differential oracle against each request computed alone',
+    'On 3 designed networks (line, triangle, line with low-p_max amplifiers) every ordered batch of 1-2 requests and a sixth '
+    '(thorough: all) of the ordered triples (thorough: + sampled quadruples) from a menu of 8 mutually non-aggregatable requests '
+    '(light, dense comb that saturates shared amplifiers, automatic mode, bidirectional, dense bidirectional, blocked by a STRICT '
+    'include, no feasible mode, spacing below every mode), 16 two-batch histories on the same network object and API-built '
+    'request batches without explicit route lists: each request\'s route, mode, per-channel GSNR/OSNR of both directions and '
+    'non-spectrum blocking reason must equal its solo result; network_to_json and every amplifier setting must be unchanged '
+    'after each batch. A vacuity guard requires that the dense requests really clamp amplifier gains.',
+    'Spectrum slots and spectrum blocking reasons are excluded as the property allows; networks have 3 ROADM sites.',
+    'DESIGN.md 3/C16')
+
 ALL = [f'C{i:02d}' for i in range(1, 21)]
 NOT_BUILT_REASON = 'check not built yet in this round (planned, see DESIGN.md section 3); not claimed until it runs'
 
